@@ -202,6 +202,13 @@ def zoo_check(n, tier, seed):
         rcode = fuzz_campaign(n, R, seed, cfg, secs=int(os.environ.get("VF_FUZZ_SECS", "90")))
         if rcode == 2:
             return 2
+    import vfextra
+    if not R.violations and n == 10:
+        if vfextra.c10_extra(R, tier, seed) == 2:
+            return 2
+    if not R.violations and n == 12:
+        if vfextra.c12_extra(R, tier, seed) == 2:
+            return 2
     return R.finish("cases = (zoo member, memory fill, scenario, operation list with per-callback action lists) generated by rapidcheck (structured generators, profile-weighted) "
                     "and, in the thorough tier, by libFuzzer over the byte encoding; distinct = distinct encoded case (per worker, summed); non-trivial = " + NONTRIVIAL_RULE[n])
 
